@@ -25,7 +25,7 @@ RULE = (
     'stepping, paused, waiting, with another request pending, or inside a transition; distinct = distinct event-log '
     'digest of such runs.'
 )
-BUDGET = {'quick': (80000, 55), 'thorough': (4_000_000, 600)}
+BUDGET = {'quick': (200000, 55), 'thorough': (4_000_000, 600)}
 COMPONENTS = common.COMPONENTS
 ASSUMPTIONS = [
     'a caller gives up on the future of its kill()/pause() between loop callbacks, not from inside a listener notification of '
